@@ -573,6 +573,9 @@ def oracle(case: Case, out: str):
     if not case.claimed or rs.values_too_large(out):
         return None
     c: rs.SysCase = pickle.loads(bytes.fromhex(case.payload))
+    if "#ALIAS:" in out:
+        return ("returned-array-rewritten", "an array handed out by an earlier request (#" + out.split("#ALIAS:")[1].split(";")[0].split("|")[0].split("#")[0]
+                + ") changed its values when the store was written to later: earlier results / trace values are rewritten retroactively")
     if "#UNREADABLE:" in out:
         return ("stored-value-unreadable", "a value stored under this configuration cannot be read back: " + out.split("#UNREADABLE:")[1])
     if "#TRACE:" in out:
@@ -589,7 +592,13 @@ def oracle(case: Case, out: str):
     plain = rs.derive(c, reqs=[r for r in c.reqs if r[0] != "reads"], config={})
     pout, _, _ = rs.run_real(plain)
     want = pout.split("|")[0].split(";")
+    # once an input is written again between the requests the inputs are no longer fixed: a configuration that does not
+    # keep a value recomputes it from the new input where the plain run serves the value it kept (the model says so too,
+    # and binds both); the comparison with the plain run covers the requests before that write
+    first_set = next((i for i, r in enumerate(r for r in c.reqs if r[0] != "reads") if r[0] == "set"), len(want))
     for i, (g, w) in enumerate(zip(got, want)):
+        if i >= first_set:
+            break
         g, w = g.split("#L:")[0], w.split("#L:")[0]
         if w.startswith("ok:") and g != w:
             opts = [o for o in OPTS if c.config.get(o)]
@@ -633,7 +642,14 @@ def generate(rng: random.Random, tier: str):
         ext = {"divide", "params", "requests"} if j % 2 else None
         c = rs.gen_case(rng, kind="ranked", msl=1, nreq=rng.randint(3, 7), features=ext)
         # a third of the plain requests ask for the whole trace of the request (compared with the model's log when tracing is on)
-        c.reqs = [(("tcalc",) + tuple(r[1:]) if r[0] == "calc" and rng.random() < 0.35 else r) for r in c.reqs] + [("reads",)]
+        c.reqs = [(("tcalc",) + tuple(r[1:]) if r[0] == "calc" and rng.random() < 0.35 else r) for r in c.reqs]
+        if c.inputs and rng.random() < 0.4:
+            # an input is written AGAIN (same period, same length, other values) after requests that read it, then the
+            # requests are made again: what was returned and recorded before the second write must not change
+            iv, itok, ivals = rng.choice(c.inputs)
+            asked = [r for r in c.reqs if r[0] in ("calc", "tcalc", "add", "div", "out")]
+            c.reqs = c.reqs + [("get", iv, itok), ("set", iv, itok, rs.gen_values(rng, c.vars[iv], len(ivals)))] + asked[:3] + [("get", iv, itok)]
+        c.reqs = c.reqs + [("reads",)]
         for sub in subsets:
             c2 = _with_config(rng, c, sub)
             out.append(_case(c2, tuple("opt:" + o for o in sub) or ("plain",)))
